@@ -54,6 +54,7 @@ def codeConstantsMatch : Bool :=
   && Generated.diffStartsWith == deltaLit
   && Generated.diffPointToDelta == [(TBase.degF.name, TBase.dF.name), (TBase.degC.name, TBase.dC.name)]
   && Generated.diffHelperUnit == TBase.dC.name
+  && Generated.diffHelperKeepsUnit && Generated.powChecksOffset && Generated.addRescalesFirst
 
 /-- `_split_prefix(str(u))` finds a prefix exactly for the prefixed spellings of the prefixable
     symbols: for every prefix `s` and prefixable `b`, `s ++ b` splits; no bare display name does -/
